@@ -149,10 +149,10 @@ pub fn build_bytes(l: &mut Local, site: &str, p: &Pkt, var: Variant) -> Option<B
             match w.calculate_size() {
                 Err(e) => out = Some(Built::Rejected(build::werr(e))),
                 Ok(n) => {
-                    let mut buf = vec![0xA5u8; n];
+                    let mut buf = crate::engine::place::OutBuf::new(n, |_| 0xA5);
                     l.transitions += 1;
                     match DynW(w).write_into(&mut buf) {
-                        Ok(m) if m == n => out = Some(Built::Bytes(buf)),
+                        Ok(m) if m == n => out = Some(Built::Bytes(buf.into_vec())),
                         Ok(m) => {
                             l.violation(format!("{}:{}:written-differs-from-announced", site, p.builder_name()), || p.short(), || format!("calculate_size() = {}, write_into() returned {}", n, m));
                         }
